@@ -10,6 +10,7 @@ import itertools
 
 from .. import common
 
+HISTORY_LEN = {"quick": 5, "thorough": 6}
 BOUNDS = {
     # (alphabet, max length).  '\r', U+2028, '\x0b', '\x85' are ordinary characters for this property (line breaks are
     # '\n' only), but str.splitlines() treats them as line boundaries - so they must be in some alphabet.
@@ -104,7 +105,51 @@ def check_text(text: str) -> tuple[list[dict], int, int]:
     return fails, evals, (1 if "\n" in text else 0)
 
 
+def check_histories(length: int, first_parts):
+    """Two texts in a row: query text A, drop it, build a different text B of the same length and query B.  The answers for B
+    must be those of B alone - whatever an implementation remembers from A (CPython usually hands B the block A just left,
+    so anything keyed by id() sees 'the same' object)."""
+    from pest.pairs import Position, Span
+
+    fails, evals, same_addr = [], 0, 0
+    parts = [list(t) for t in itertools.product("a\n", repeat=length)]
+    for pa in first_parts:
+        for pb in parts:
+            if pb == pa:
+                continue
+            for p in range(length + 1):
+                for q in range(length + 1):
+                    a = "".join(pa)
+                    ida = id(a)
+                    Position(a, p).line_col()
+                    del a
+                    b = "".join(pb)
+                    same_addr += 1 if id(b) == ida else 0
+                    evals += 1
+                    want = ref_line_col(b, q)
+                    got = tuple(Position(b, q).line_col())
+                    if got != want:
+                        fails.append({"kind": "line_col-after-other-text", "text": b, "pos": q, "got": list(got), "expected": list(want), "previous_text": "".join(pa), "previous_pos": p})
+                        del b
+                        continue
+                    lines = ref_lines(b)
+                    want_lines = lines[want[0] - 1: ref_line_col(b, length)[0]]
+                    got_lines = list(Span(b, q, length).lines())
+                    if got_lines != want_lines:
+                        fails.append({"kind": "span.lines-after-other-text", "text": b, "span": [q, length], "got": got_lines, "expected": want_lines, "previous_text": "".join(pa), "previous_pos": p})
+                    del b
+    return fails[:20], evals, same_addr
+
+
 def _chunk(payload):
+    if payload[0] == "histories":
+        _, length, first_parts = payload
+        f, e, same = check_histories(length, first_parts)
+        return f, e, 0, 0, same
+    return _chunk_texts(payload) + (0,)
+
+
+def _chunk_texts(payload):
     alphabet, length, prefixes = payload
     fails, evals, nontriv, texts = [], 0, 0, 0
     for pre in prefixes:
@@ -131,11 +176,19 @@ def run(tier: str) -> int:
             payloads.append((alphabet, length, prefixes[0::2]))
             if len(prefixes) > 1:
                 payloads.append((alphabet, length, prefixes[1::2]))
-    for f, e, nt, t in common.parallel_map(_chunk, payloads, fresh=False, order_seed=common.seed()):
+    hist_len = HISTORY_LEN[tier]
+    for length in range(1, hist_len + 1):
+        parts = [list(t) for t in itertools.product("a\n", repeat=length)]
+        for i in range(0, len(parts), 2):
+            payloads.append(("histories", length, parts[i:i + 2]))
+    hist_evals = same_addr = 0
+    for f, e, nt, t, same in common.parallel_map(_chunk, payloads, fresh=False, order_seed=common.seed()):
         fails.extend(f)
         evals += e
         nontriv += nt
         texts += t
+        same_addr += same
+        hist_evals += e if same or (f and "previous_text" in f[0]) else 0
     # regression witnesses of fixed findings
     regress = 0
     for fnd in common.fixed_findings("C14"):
@@ -160,6 +213,9 @@ def run(tier: str) -> int:
         "samples": [{"text": t, "offsets": [[p, list(ref_line_col(t, p))] for p in range(len(t) + 1)]} for t in common.pick_samples(some, 3)],
         "exhaustive": True,
         "texts": texts,
+        "two_text_histories": {"length": hist_len, "second_text_at_first_texts_address": same_addr,
+                               "rule": "every ordered pair of different texts over {a, newline} of equal length <= the bound x every offset in the first x every offset in the second: "
+                                       "line_col of the first, drop it, build the second, line_col and Span(q, len).lines() of the second must be those of the second text alone"},
         "bounds": [{"alphabet": a, "max_len": m} for a, m in BOUNDS[tier]],
         "failing_cases_seen": len(fails),
         "fixed_witnesses_replayed": regress,
@@ -174,6 +230,21 @@ def run(tier: str) -> int:
 
 
 def replay_case(case: dict) -> bool:
+    if "previous_text" in case:
+        from pest.pairs import Position
+
+        bad = False
+        for _ in range(20):  # the second text must land on the first one's address for a memo keyed by id() to be consulted
+            a = "".join(list(case["previous_text"]))
+            Position(a, case["previous_pos"]).line_col()
+            del a
+            b = "".join(list(case["text"]))
+            q = case["pos"] if "pos" in case else case["span"][0]
+            got = tuple(Position(b, q).line_col())
+            bad = bad or got != ref_line_col(b, q)
+            del b
+        print("  line_col after the previous text:", "wrong" if bad else "right")
+        return bad
     fails, _, _ = check_text(case["text"])
     for f in fails[:10]:
         print("  ", f)
